@@ -20,9 +20,9 @@ BufferLen == 3
 MaxTag == 8
 
 VARIABLES
-  \* @type: Seq({avail: Int, t: Int, at: Int});
+  \* @type: Seq({avail: Int, t: Int, at: Int, rev: Bool});
   buffer,
-  \* @type: Seq({t: Int, at: Int});
+  \* @type: Seq({t: Int, at: Int, rev: Bool});
   queue,
   \* @type: Int;
   cycle,
@@ -34,14 +34,14 @@ Init == buffer = <<>> /\ queue = <<>> /\ cycle = 1 /\ ctr = 1
 Min(a, b) == IF a < b THEN a ELSE b
 
 BAdd == /\ Len(buffer) # BufferLen /\ ctr < MaxTag
-        /\ buffer' = Append(buffer, [avail |-> cycle + 1, t |-> ctr, at |-> cycle])
+        /\ buffer' = Append(buffer, [avail |-> cycle + 1, t |-> ctr, at |-> cycle, rev |-> FALSE])
         /\ ctr' = ctr + 1 /\ UNCHANGED <<queue, cycle>>
 BTick == /\ cycle < MaxTag /\ cycle' = cycle + 1 /\ UNCHANGED <<buffer, queue, ctr>>
 BConnect == \E n \in 0 .. BufferLen :
             /\ n <= Min(Len(buffer), QueueLen - Len(queue))
             /\ \A i \in 1 .. BufferLen : i <= n => buffer[i].avail <= cycle
             /\ (n = Min(Len(buffer), QueueLen - Len(queue)) \/ buffer[n + 1].avail > cycle)
-            /\ queue' = queue \o FunAsSeq([i \in 1 .. BufferLen |-> [t |-> buffer[i].t, at |-> buffer[i].at]], n, BufferLen)
+            /\ queue' = queue \o FunAsSeq([i \in 1 .. BufferLen |-> [t |-> buffer[i].t, at |-> buffer[i].at, rev |-> buffer[i].rev]], n, BufferLen)
             /\ buffer' = SubSeq(buffer, n + 1, Len(buffer))
             /\ UNCHANGED <<cycle, ctr>>
 BGet == /\ queue # <<>> /\ queue' = Tail(queue) /\ UNCHANGED <<buffer, cycle, ctr>>
@@ -76,6 +76,49 @@ Avail ==
 IndInv == /\ cycle >= 1 /\ cycle <= MaxTag /\ ctr >= 1 /\ ctr <= MaxTag
           /\ WithinCapacity /\ Ordered /\ Fresh /\ Avail
 
+(* ---------------- undisciplined producers (Bus.tla with Disciplined = FALSE) --------------- *)
+(* Add without asking CanAdd, and Revert(t, cycle): an item put back at the head of the input   *)
+(* side, available at once.  Capacity and tag order no longer hold; what remains inductive is  *)
+(* that tags are delivered at most once (no tag is in the bus twice, all are below ctr) and    *)
+(* that an item that was ADDED is never visible in the cycle it was added in.                  *)
+BAddAny == /\ Len(buffer) < BufferLen + 2 /\ ctr < MaxTag
+           /\ buffer' = Append(buffer, [avail |-> cycle + 1, t |-> ctr, at |-> cycle, rev |-> FALSE])
+           /\ ctr' = ctr + 1 /\ UNCHANGED <<queue, cycle>>
+BRevert == /\ Len(buffer) < BufferLen + 2 /\ ctr < MaxTag
+           /\ buffer' = <<[avail |-> cycle, t |-> ctr, at |-> cycle, rev |-> TRUE]>> \o buffer
+           /\ ctr' = ctr + 1 /\ UNCHANGED <<queue, cycle>>
+BConnectU == \E n \in 0 .. BufferLen + 2 :
+            /\ n <= Min(Len(buffer), QueueLen - Len(queue))
+            /\ \A i \in 1 .. BufferLen + 2 : i <= n => buffer[i].avail <= cycle
+            /\ (n = Min(Len(buffer), QueueLen - Len(queue)) \/ buffer[n + 1].avail > cycle)
+            /\ queue' = queue \o FunAsSeq([i \in 1 .. BufferLen + 2 |-> [t |-> buffer[i].t, at |-> buffer[i].at, rev |-> buffer[i].rev]], n, BufferLen + 2)
+            /\ buffer' = SubSeq(buffer, n + 1, Len(buffer))
+            /\ UNCHANGED <<cycle, ctr>>
+NextU == BAddAny \/ BRevert \/ BTick \/ BConnectU \/ BGet \/ BPick \/ BDeleteLast \/ BClean
+
+BL2 == BufferLen + 2
+IndInvU ==
+  /\ cycle >= 1 /\ cycle <= MaxTag /\ ctr >= 1 /\ ctr <= MaxTag
+  /\ Len(buffer) <= BL2 /\ Len(queue) <= QueueLen
+  /\ \A i \in 1 .. QueueLen : i <= Len(queue) => (queue[i].t >= 1 /\ queue[i].t < ctr)
+  /\ \A j \in 1 .. BL2 : j <= Len(buffer) => (buffer[j].t >= 1 /\ buffer[j].t < ctr)
+  \* at most once: no tag is held twice
+  /\ \A i, j \in 1 .. QueueLen : (i < j /\ j <= Len(queue)) => queue[i].t # queue[j].t
+  /\ \A i, j \in 1 .. BL2 : (i < j /\ j <= Len(buffer)) => buffer[i].t # buffer[j].t
+  /\ \A i \in 1 .. QueueLen, j \in 1 .. BL2 : (i <= Len(queue) /\ j <= Len(buffer)) => queue[i].t # buffer[j].t
+  \* a cycle later, for added items
+  /\ \A j \in 1 .. BL2 : (j <= Len(buffer) /\ ~buffer[j].rev) => (buffer[j].avail = buffer[j].at + 1 /\ buffer[j].at <= cycle)
+  /\ \A i \in 1 .. QueueLen : (i <= Len(queue) /\ ~queue[i].rev) => queue[i].at < cycle
+IndInitU ==
+  /\ cycle \in 1 .. MaxTag /\ ctr \in 1 .. MaxTag
+  /\ \E nb \in 0 .. BL2, nq \in 0 .. QueueLen :
+     \E fb \in [1 .. BL2 -> [avail : 1 .. MaxTag + 1, t : 1 .. MaxTag, at : 1 .. MaxTag, rev : BOOLEAN]],
+        fq \in [1 .. QueueLen -> [t : 1 .. MaxTag, at : 1 .. MaxTag, rev : BOOLEAN]] :
+        /\ buffer = FunAsSeq(fb, nb, BL2)
+        /\ queue = FunAsSeq(fq, nq, QueueLen)
+  /\ IndInvU
+ProbeNoRevVisible == \A i \in 1 .. QueueLen : i <= Len(queue) => ~queue[i].rev
+
 (* non-vacuity probes: each must be REFUTED from IndInit at length 0 / 1 *)
 ProbeNotFull == ~(Len(buffer) = BufferLen /\ Len(queue) = QueueLen)
 ProbeNoMove == Len(queue) = 0
@@ -83,7 +126,7 @@ ProbeNoMove == Len(queue) = 0
 IndInit ==
   /\ cycle \in 1 .. MaxTag /\ ctr \in 1 .. MaxTag
   /\ \E nb \in 0 .. BufferLen, nq \in 0 .. QueueLen :
-     \E fb \in [1 .. BufferLen -> [avail : 1 .. MaxTag + 1, t : 1 .. MaxTag, at : 1 .. MaxTag]], fq \in [1 .. QueueLen -> [t : 1 .. MaxTag, at : 1 .. MaxTag]] :
+     \E fb \in [1 .. BufferLen -> [avail : 1 .. MaxTag + 1, t : 1 .. MaxTag, at : 1 .. MaxTag, rev : BOOLEAN]], fq \in [1 .. QueueLen -> [t : 1 .. MaxTag, at : 1 .. MaxTag, rev : BOOLEAN]] :
         /\ buffer = FunAsSeq(fb, nb, BufferLen)
         /\ queue = FunAsSeq(fq, nq, QueueLen)
   /\ IndInv
